@@ -116,7 +116,9 @@ class Builder(object):
 
     def plin(self, terms):
         x = self.nm("x")
-        self.emit(op="plin", out=x, terms=[[h, float(w)] for h, w in terms])
+        op = self.emit(op="plin", out=x, terms=[[h, float(w)] for h, w in terms])
+        if self.rng.random() < 0.12:
+            op["acc"] = True      # written as `acc = null_point; acc += ...`
         self.points.append(x)
         return x
 
@@ -140,6 +142,8 @@ class Builder(object):
         op = dict(op="elin", out=e, terms=[[h, float(w)] for h, w in terms])
         if const is not None:
             op["const"] = float(const)
+        if terms and self.rng.random() < 0.12:
+            op["acc"] = True      # written as `acc = null_expression; acc += ...`
         self.ops.append(op)
         return e
 
@@ -797,6 +801,12 @@ def decorate(b, rng, kinds):
             if pts and rng.random() < 0.5:
                 # a user constraint attached to the partition itself (public BlockPartition.add_constraint)
                 b.bound(b.sq(rng.choice(pts)), 3e3, target=Bp)
+        elif kind == "double_reg":
+            # the same Constraint object registered with a second owner (it then reaches the solver twice)
+            cands = [o for o in b.ops if o["op"] == "cons" and o.get("target") == P]
+            if cands and info.get("main_f"):
+                c = rng.choice(cands)["out"]
+                b.emit(op="attach", c=c, target=rng.choice([info["main_f"], P]))
         elif kind == "composite_items" and pts and info.get("F"):
             # a constraint and an LMI attached to a *composite* function
             b.bound(b.sq(rng.choice(pts)), 2.5e3, target=info["F"])
@@ -846,7 +856,7 @@ def decorate(b, rng, kinds):
 
 DECORATIONS = ["extra_metric", "redundant_cons", "eq_cons", "func_cons", "lmi_sym", "lmi_asym", "lmi_func", "lmi3",
                "unused_query", "useless_partition", "orphan_psd", "part_cons", "zero_coef", "mirror", "leaf_metric",
-               "leaf_sides", "composite_items"]
+               "leaf_sides", "composite_items", "double_reg"]
 
 
 def build_model(rng, prefix="", template=None, n=None, decorations=None, names=None, weights=None,
